@@ -14,6 +14,9 @@ StartOpts == {[dl |-> d, stop |-> KillNow, nb |-> nb, rin |-> 0, rout |-> 0, rer
              \* fork mode: the forked child plays the child's part itself, the streams must behave exactly the same
              \cup {[dl |-> d, stop |-> KillNow, nb |-> FALSE, rin |-> 0, rout |-> 0, rerr |-> R_PIPE, input |-> -1,
                      term |-> 0, self |-> TRUE, prog |-> "/bin/c", fork |-> TRUE] : d \in DlOpts}
+             \* a deadline bounds wait / poll / drain only: nonblocking reads and writes never wait for it
+             \cup (IF Mode = "io" THEN {[dl |-> 2, stop |-> KillNow, nb |-> TRUE, rin |-> 0, rout |-> 0, rerr |-> R_PIPE, input |-> -1,
+                                         term |-> 0, self |-> TRUE, prog |-> "/bin/c"]} ELSE {})
 Sinks == {<<<<0, 0>>, <<0, 0>>>>} \cup {<<<<k, -5>>, <<0, 0>>>> : k \in SinkFails} \cup {<<<<0, 0>>, <<k, 7>>>> : k \in SinkFails}
          \* the library's string sink: empty or non-empty before, allocation failing at growth step k (0 = never)
          \cup {<<<<k, ENOMEM, "str", l0>>, <<0, 0>>>> : k \in SinkFails \cup {0}, l0 \in {0, 3}}
